@@ -549,7 +549,14 @@ func finish(e *env.Env, db *gorm.DB, ch Chain, dry bool) (o obs) {
 			// examined in DESIGN.md section 13
 			err = db.Error
 		} else {
-			err = db.Transaction(func(tx *gorm.DB) error {
+			h := db
+			if _, inTx := db.Statement.ConnPool.(gorm.TxCommitter); inTx {
+				// inside a transaction the block is a nested one: a SAVEPOINT that fails
+				// (the handle's context may be over) is added to the handle it was called
+				// on - the same sticky-error behaviour - so it is called on a session
+				h = db.Session(&gorm.Session{})
+			}
+			err = h.Transaction(func(tx *gorm.DB) error {
 				return tx.Model(&fam.User{}).Count(&n).Error
 			})
 		}
